@@ -33,6 +33,9 @@ type Builder struct {
 	comdat map[*am.Comdat]*ir.ComdatDef
 	groups map[*am.AttrGroup]*ir.AttrGroupDef
 	mds    map[*am.MDNode]*metadata.Tuple
+	// share: equal constants are one Go object, used at every place where the program needs that constant
+	share bool
+	cmemo map[string]constant.Constant
 	// Calls counts constructor calls per kind (evidence histogram).
 	Calls map[string]int
 	// fixups run after all bodies exist (phi incoming values, blockaddress)
@@ -66,6 +69,51 @@ func ModuleWithLate(m *am.Module, staleTypes, lateAS bool) (*ir.Module, map[stri
 		Calls: map[string]int{}}
 	b.build()
 	return b.M, b.Calls
+}
+
+// ModuleShared is Module for a program that keeps its types and constants in variables: equal literal types
+// are one Go object and equal constants are one Go object, reachable from every place that uses them
+// (operands of several instructions, elements of several aggregates, initialisers of several globals).
+func ModuleShared(m *am.Module) (*ir.Module, map[string]int) {
+	b := &Builder{M: ir.NewModule(), ts: NewTypes(m.U), am: m, share: true, cmemo: map[string]constant.Constant{},
+		funcs: map[*am.Fun]*ir.Func{}, globs: map[*am.Global]*ir.Global{}, alias: map[*am.Alias]value.Value{},
+		blocks: map[*am.Block]*ir.Block{}, insts: map[*am.Inst]value.Value{}, params: map[*am.Param]*ir.Param{},
+		comdat: map[*am.Comdat]*ir.ComdatDef{}, groups: map[*am.AttrGroup]*ir.AttrGroupDef{}, mds: map[*am.MDNode]*metadata.Tuple{},
+		Calls: map[string]int{}}
+	b.ts.Share = true
+	b.build()
+	return b.M, b.Calls
+}
+
+// constKey identifies a constant structurally (references by the identity of what they refer to).
+func constKey(c *am.Const) string {
+	var sb strings.Builder
+	var rec func(c *am.Const)
+	rec = func(c *am.Const) {
+		fmt.Fprintf(&sb, "(%d %s", c.K, c.T.String())
+		if c.Int != nil {
+			sb.WriteString(" i" + c.Int.String())
+		}
+		fmt.Fprintf(&sb, " %q %q %p %p", c.Lit, c.Chars, c.Ref, c.Block)
+		for _, e := range c.Elems {
+			rec(e)
+		}
+		if e := c.Expr; e != nil {
+			fmt.Fprintf(&sb, " %s %v %s %v %d %v", e.Op, e.Flags, e.Pred, e.InBounds, e.InRange, e.Indices)
+			if e.To != nil {
+				sb.WriteString(" to " + e.To.String())
+			}
+			if e.ElemT != nil {
+				sb.WriteString(" elem " + e.ElemT.String())
+			}
+			for _, a := range e.Args {
+				rec(a)
+			}
+		}
+		sb.WriteString(")")
+	}
+	rec(c)
+	return sb.String()
 }
 
 func (b *Builder) build() {
@@ -493,6 +541,20 @@ func (b *Builder) globalRef(x any) constant.Constant {
 }
 
 func (b *Builder) constant(c *am.Const) constant.Constant {
+	if !b.share {
+		return b.constant1(c)
+	}
+	key := constKey(c)
+	if x, ok := b.cmemo[key]; ok {
+		b.call("shared constant object used again")
+		return x
+	}
+	x := b.constant1(c)
+	b.cmemo[key] = x
+	return x
+}
+
+func (b *Builder) constant1(c *am.Const) constant.Constant {
 	t := b.ts.Type(c.T)
 	switch c.K {
 	case am.CInt:
